@@ -74,6 +74,8 @@ class PTable(EngineBase):
                  "no_cap_sys_resource": rng.random() < 0.3,
                  "listdir_order": rng.choice(["sorted", "reversed", "o7"]),
                  "mono0": 50000.0 + rng.randrange(0, 500)}
+        if prop == "C02" and rng.random() < 0.06:
+            world["pidns_foreign"] = True
         if prop == "C02" and rng.random() < 0.12:
             world["wall_offset"] = rng.choice([0.25, 37.5, 1000.75, 86400.5])
         if prop == "C05":
@@ -152,7 +154,7 @@ class PTable(EngineBase):
             return {"ev": "reap", "pid": pid}
         if r < 0.75:
             return self.new_proc_ev(rng, pid, pool, "spawn")
-        if r < 0.80 and prop == "C04":
+        if r < 0.80 and prop in ("C04", "C01"):
             return {"ev": "thread_start", "pid": pid,
                     "tid": rng.choice(pool) + 300}
         if r < 0.9:
@@ -227,6 +229,9 @@ class PTable(EngineBase):
                 return {"op": "wait0", "h": rng.randrange(64)}
             return {"op": "pid_exists", "n": rng.choice(pool + [0, -1])}
         if prop == "C02":
+            if world.get("pidns_foreign") and (r < 0.03 or 0.97 <= r < 0.985):
+                # (no children and no signals across PID namespaces)
+                return {"op": "is_running", "h": rng.randrange(64)}
             if r < 0.03:
                 return {"op": "new_popen"}
             if r < 0.25:
@@ -261,6 +266,12 @@ class PTable(EngineBase):
             if r < 0.97:
                 return {"op": "get", "h": rng.randrange(64),
                         "m": rng.choice(["ppid", "name", "status"])}
+            if r < 0.985:
+                # calls in between that do not end anybody's life: the
+                # existence probe, SIGCONT, numbers the kernel refuses (EINVAL)
+                return {"op": "sig", "h": rng.randrange(64),
+                        "m": "send_signal",
+                        "sig": rng.choice([0, 18, 65, 65, 100, 64])}
             return {"op": "str", "h": rng.randrange(64)}
         if prop == "C04":
             if r < 0.12:
@@ -782,7 +793,7 @@ class PTable(EngineBase):
             if consume is None:
                 acc0_ = len(k.acclog)
                 got = list(g)
-                if st.get("prop") == "C02" and not any(
+                if st.get("prop") in ("C01", "C02") and not any(
                         e for e in k.stats if e.startswith("ev_in_")):
                     # objects *created* by this pass become handles of their
                     # own (the application keeps what process_iter() yields)
@@ -793,8 +804,8 @@ class PTable(EngineBase):
                         owners = {a[6] for a in k.acclog[acc0_:]
                                   if a[5] == o.pid and a[8]}
                         cur = k.procs.get(o.pid)
-                        if len(owners) == 1 and cur is not None and \
-                                cur.inc in owners and len(st["handles"]) < 40:
+                        if cur is not None and owners <= {cur.inc} and \
+                                len(st["handles"]) < 40:
                             st["handles"].append(Handle(
                                 o, o.pid, cur.inc, idx, st["steps"]))
                             st["probe"]("handle_from_process_iter")
